@@ -64,7 +64,7 @@ def run_stream(sm: Any, frames: Sequence[Frame]) -> Tuple[Dict[int, List[bytes]]
     return out, None
 
 
-FORMATS = ("console", "log", "fdlog", "console-lc", "log-lc", "fdlog-lc", "log-iface")
+FORMATS = ("console", "log", "fdlog", "console-lc", "log-lc", "fdlog-lc", "log-iface", "console-ascii")
 
 
 def render(frames: Sequence[Frame], fmt: str) -> str:
@@ -82,7 +82,12 @@ def render(frames: Sequence[Frame], fmt: str) -> str:
     for cid, data in frames:
         t += 0.001
         ident = f"{cid:03x}" if lower else f"{cid:03X}"
-        if base == "console":
+        if fmt == "console-ascii":
+            # candump -a: an ASCII column follows the data bytes
+            asc = "".join(chr(b) if 32 <= b < 127 and chr(b) not in "'" else "." for b in data)
+            lines.append(f"  {iface}  {ident}   [{len(data)}]  " + " ".join(hx(bytes([b])) for b in data) +
+                         f"   '{asc}'")
+        elif base == "console":
             lines.append(f"  {iface}  {ident}   [{len(data)}]  " + " ".join(hx(bytes([b])) for b in data))
         elif base == "log":
             lines.append(f"({t:.6f}) {iface} {ident}#{hx(data)}")
